@@ -43,6 +43,8 @@ structure Task.TI (t : Task) : Prop extends Task.BodyTI t where
   unl : ∀ ls o, t.pc = .unlocking ls o →
     t.locks = [] ∧ ls.Nodup ∧ (∀ l ∈ ls, ∃ k, l = lockKeyOf t.mode k) ∧ t.mode ≠ .fast
   fin : ∀ o, t.pc = .finished o → t.locks = []
+  mid : ∀ ls, t.pc = .midUnlock ls →
+    t.locks = [] ∧ t.ov = [] ∧ t.del = [] ∧ ls.Nodup ∧ (∀ l ∈ ls, ∃ k, l = lockKeyOf t.mode k) ∧ t.mode ≠ .fast
 
 theorem holds_false_iff {t : Task} {k : Nat} : holds t k = false ↔ t.mode ≠ .fast ∧ lockKeyOf t.mode k ∉ t.locks := by
   unfold holds
@@ -53,7 +55,7 @@ theorem BodyTI_abort {t : Task} (h : t.BodyTI) (o : Outcome) : (abort t o).TI :=
   split
   · rename_i hl
     refine { plain_ctx := h.plain_ctx, noctx := ?_, ctx_tx := h.ctx_tx, nodup := h.nodup, shape := h.shape, fast := h.fast,
-             noctx_pc := ?_, ctx_pc := ?_, waiting := ?_, unl := ?_, fin := ?_ } <;> simp_all [PC.plainOk, PC.txOk]
+             noctx_pc := ?_, ctx_pc := ?_, waiting := ?_, unl := ?_, fin := ?_, mid := ?_ } <;> simp_all [PC.plainOk, PC.txOk]
   · rename_i hl
     have hm : t.mode ≠ .fast := fun hm => hl (h.fast hm)
     have hc : t.ctx = true := by
@@ -61,7 +63,7 @@ theorem BodyTI_abort {t : Task} (h : t.BodyTI) (o : Outcome) : (abort t o).TI :=
       · exact absurd (h.noctx hc).1 hl
       · rfl
     refine { plain_ctx := h.plain_ctx, noctx := ?_, ctx_tx := h.ctx_tx, nodup := ?_, shape := ?_, fast := ?_,
-             noctx_pc := ?_, ctx_pc := ?_, waiting := ?_, unl := ?_, fin := ?_ } <;> simp_all [PC.plainOk, PC.txOk]
+             noctx_pc := ?_, ctx_pc := ?_, waiting := ?_, unl := ?_, fin := ?_, mid := ?_ } <;> simp_all [PC.plainOk, PC.txOk]
     exact ⟨h.nodup, h.shape⟩
 
 theorem BodyTI_afterCommit {t : Task} (h : t.BodyTI) (hc : t.ctx = true) : (afterCommit t).TI := by
@@ -69,11 +71,11 @@ theorem BodyTI_afterCommit {t : Task} (h : t.BodyTI) (hc : t.ctx = true) : (afte
   split
   · rename_i hl
     refine { plain_ctx := h.plain_ctx, noctx := ?_, ctx_tx := h.ctx_tx, nodup := h.nodup, shape := h.shape, fast := h.fast,
-             noctx_pc := ?_, ctx_pc := ?_, waiting := ?_, unl := ?_, fin := ?_ } <;> simp_all [PC.plainOk, PC.txOk]
+             noctx_pc := ?_, ctx_pc := ?_, waiting := ?_, unl := ?_, fin := ?_, mid := ?_ } <;> simp_all [PC.plainOk, PC.txOk]
   · rename_i hl
     have hm : t.mode ≠ .fast := fun hm => hl (h.fast hm)
     refine { plain_ctx := h.plain_ctx, noctx := ?_, ctx_tx := h.ctx_tx, nodup := ?_, shape := ?_, fast := ?_,
-             noctx_pc := ?_, ctx_pc := ?_, waiting := ?_, unl := ?_, fin := ?_ } <;> simp_all [PC.plainOk, PC.txOk]
+             noctx_pc := ?_, ctx_pc := ?_, waiting := ?_, unl := ?_, fin := ?_, mid := ?_ } <;> simp_all [PC.plainOk, PC.txOk]
     exact ⟨h.nodup, h.shape⟩
 
 theorem BodyTI_endOfProg {t : Task} (h : t.BodyTI) : (endOfProg t).TI := by
@@ -82,15 +84,15 @@ theorem BodyTI_endOfProg {t : Task} (h : t.BodyTI) : (endOfProg t).TI := by
   · rename_i hc
     split
     · refine { plain_ctx := h.plain_ctx, noctx := ?_, ctx_tx := h.ctx_tx, nodup := h.nodup, shape := h.shape, fast := h.fast,
-               noctx_pc := ?_, ctx_pc := ?_, waiting := ?_, unl := ?_, fin := ?_ } <;> simp_all [PC.plainOk, PC.txOk]
+               noctx_pc := ?_, ctx_pc := ?_, waiting := ?_, unl := ?_, fin := ?_, mid := ?_ } <;> simp_all [PC.plainOk, PC.txOk]
     · split
       · refine { plain_ctx := h.plain_ctx, noctx := ?_, ctx_tx := h.ctx_tx, nodup := h.nodup, shape := h.shape, fast := h.fast,
-                 noctx_pc := ?_, ctx_pc := ?_, waiting := ?_, unl := ?_, fin := ?_ } <;> simp_all [PC.plainOk, PC.txOk]
+                 noctx_pc := ?_, ctx_pc := ?_, waiting := ?_, unl := ?_, fin := ?_, mid := ?_ } <;> simp_all [PC.plainOk, PC.txOk]
       · exact BodyTI_afterCommit (t := { t with prog := [] }) ⟨h.plain_ctx, h.noctx, h.ctx_tx, h.nodup, h.shape, h.fast⟩ hc
   · rename_i hc
     have hc' : t.ctx = false := by simpa using hc
     refine { plain_ctx := h.plain_ctx, noctx := h.noctx, ctx_tx := h.ctx_tx, nodup := h.nodup, shape := h.shape, fast := h.fast,
-             noctx_pc := ?_, ctx_pc := ?_, waiting := ?_, unl := ?_, fin := ?_ } <;> simp_all [PC.plainOk, PC.txOk]
+             noctx_pc := ?_, ctx_pc := ?_, waiting := ?_, unl := ?_, fin := ?_, mid := ?_ } <;> simp_all [PC.plainOk, PC.txOk]
     exact (h.noctx hc').1
 
 theorem BodyTI_setxApply {t : Task} (h : t.BodyTI) (hc : t.ctx = true) (k : Nat) (v : Int) (e p : Bool) :
@@ -159,6 +161,20 @@ theorem BodyTI_localCmd {t t' : Task} {c : Cmd} (h : t.BodyTI) (hl : localCmd t 
   case nestOut =>
     simp at hl; subst hl
     exact ⟨h.plain_ctx, h.noctx, h.ctx_tx, h.nodup, h.shape, h.fast⟩
+  case commit =>
+    split at hl
+    · split at hl <;> simp at hl
+      subst hl
+      exact ⟨h.plain_ctx, h.noctx, h.ctx_tx, h.nodup, h.shape, h.fast⟩
+    · simp at hl; subst hl; exact h
+  case rollback =>
+    split at hl
+    · rename_i hc
+      split at hl <;> simp at hl
+      subst hl
+      rename_i hlk
+      exact ⟨h.plain_ctx, fun _ => ⟨hlk, rfl, rfl⟩, h.ctx_tx, h.nodup, h.shape, h.fast⟩
+    · simp at hl; subst hl; exact h
 
 theorem BodyTI_lockOrFail {t : Task} (h : t.BodyTI) (hc : t.ctx = true) {k : Nat} (hh : holds t k = false)
     (prog : List Cmd) : (lockOrFail t k prog).TI := by
@@ -167,23 +183,24 @@ theorem BodyTI_lockOrFail {t : Task} (h : t.BodyTI) (hc : t.ctx = true) {k : Nat
   · exact BodyTI_abort h _
   · have := holds_false_iff.mp hh
     refine { plain_ctx := h.plain_ctx, noctx := h.noctx, ctx_tx := h.ctx_tx, nodup := h.nodup, shape := h.shape, fast := h.fast,
-             noctx_pc := ?_, ctx_pc := ?_, waiting := ?_, unl := ?_, fin := ?_ } <;> simp_all [PC.plainOk, PC.txOk]
+             noctx_pc := ?_, ctx_pc := ?_, waiting := ?_, unl := ?_, fin := ?_, mid := ?_ } <;> simp_all [PC.plainOk, PC.txOk]
 
 /-- a parked state with a stale `pc` replaced -/
 theorem BodyTI_setpc {t : Task} (h : t.BodyTI) (prog : List Cmd) (pc : PC)
     (h1 : t.ctx = false → pc.plainOk) (h2 : t.ctx = true → pc.txOk)
     (h3 : ∀ k a, ¬ (pc = .lockTry k a ∨ ∃ w, pc = .lockSleep k a w))
-    (h4 : ∀ ls o, pc ≠ .unlocking ls o) (h5 : ∀ o, pc ≠ .finished o) :
+    (h4 : ∀ ls o, pc ≠ .unlocking ls o) (h5 : ∀ o, pc ≠ .finished o) (h6 : ∀ ls, pc ≠ .midUnlock ls := by simp) :
     ({ t with prog := prog, pc := pc } : Task).TI :=
   { plain_ctx := h.plain_ctx, noctx := h.noctx, ctx_tx := h.ctx_tx, nodup := h.nodup, shape := h.shape, fast := h.fast,
     noctx_pc := h1, ctx_pc := h2, waiting := fun k a hk => absurd hk (h3 k a),
-    unl := fun ls o hk => absurd hk (h4 ls o), fin := fun o hk => absurd hk (h5 o) }
+    unl := fun ls o hk => absurd hk (h4 ls o), fin := fun o hk => absurd hk (h5 o),
+    mid := fun ls hk => absurd hk (h6 ls) }
 
 theorem BodyTI_park {t : Task} (h : t.BodyTI) (now : Nat) {c : Cmd} (rest : List Cmd) (hl : localCmd t c = none) :
     (park now t c rest).TI := by
   cases c <;> simp only [park]
   case sleep d => exact BodyTI_setpc h _ _ (by simp [PC.plainOk]) (by simp [PC.txOk]) (by simp) (by simp) (by simp)
-  case raise => exact BodyTI_abort h _
+  case raise b => exact BodyTI_abort h _
   case set k v =>
     split
     · rename_i hc
@@ -235,6 +252,37 @@ theorem BodyTI_park {t : Task} (h : t.BodyTI) (now : Nat) {c : Cmd} (rest : List
       exact BodyTI_setpc h _ _ (by simp [PC.plainOk]) (by simp [hc]) (by simp) (by simp) (by simp)
   case nestIn f => simp [localCmd] at hl
   case nestOut => simp [localCmd] at hl
+  case commit =>
+    have hc : t.ctx = true := by
+      cases hc : t.ctx
+      · simp [localCmd, hc] at hl
+      · rfl
+    split
+    · exact BodyTI_setpc h _ _ (by simp [hc]) (by simp [PC.txOk]) (by simp) (by simp) (by simp)
+    · split
+      · exact BodyTI_setpc h _ _ (by simp [hc]) (by simp [PC.txOk]) (by simp) (by simp) (by simp)
+      · rename_i hd ho
+        have hd' : t.del = [] := by simpa using hd
+        have ho' : t.ov = [] := by simpa using ho
+        have hlk : t.locks ≠ [] := by
+          intro e; simp [localCmd, hc, hd', ho', e] at hl
+        have hm : t.mode ≠ .fast := fun hm => hlk (h.fast hm)
+        refine { plain_ctx := h.plain_ctx, noctx := ?_, ctx_tx := h.ctx_tx, nodup := ?_, shape := ?_, fast := ?_,
+                 noctx_pc := ?_, ctx_pc := ?_, waiting := ?_, unl := ?_, fin := ?_, mid := ?_ } <;>
+          simp_all [PC.plainOk, PC.txOk]
+        exact ⟨h.nodup, h.shape⟩
+  case rollback =>
+    have hc : t.ctx = true := by
+      cases hc : t.ctx
+      · simp [localCmd, hc] at hl
+      · rfl
+    have hlk : t.locks ≠ [] := by
+      intro e; simp [localCmd, hc, e] at hl
+    have hm : t.mode ≠ .fast := fun hm => hlk (h.fast hm)
+    refine { plain_ctx := h.plain_ctx, noctx := ?_, ctx_tx := h.ctx_tx, nodup := ?_, shape := ?_, fast := ?_,
+             noctx_pc := ?_, ctx_pc := ?_, waiting := ?_, unl := ?_, fin := ?_, mid := ?_ } <;>
+      simp_all [PC.plainOk, PC.txOk]
+    exact ⟨h.nodup, h.shape⟩
 
 theorem BodyTI_expBuffer {t : Task} (h : t.BodyTI) (hc : t.ctx = true) (k : Nat) (cur : Option Int) :
     (expBuffer t k cur).BodyTI := by
@@ -248,6 +296,22 @@ theorem BodyTI_settle {t : Task} (now : Nat) (prog : List Cmd) (h : t.BodyTI) : 
     (fun _ _ rest h hl => BodyTI_park h now rest hl) prog t h
 
 theorem Task.TI.body {t : Task} (h : t.TI) : t.BodyTI := h.toBodyTI
+
+theorem BodyTI_afterMid {t : Task} (h : t.BodyTI) (hc : t.ctx = true) (now : Nat) : (afterMid now t).TI := by
+  unfold afterMid
+  split
+  · rename_i hl
+    exact BodyTI_settle now _ ⟨h.plain_ctx, by simp [hc], h.ctx_tx, h.nodup, h.shape, h.fast⟩
+  · rename_i hl
+    have hm : t.mode ≠ .fast := fun hm => hl (h.fast hm)
+    refine { plain_ctx := h.plain_ctx, noctx := ?_, ctx_tx := h.ctx_tx, nodup := ?_, shape := ?_, fast := ?_,
+             noctx_pc := ?_, ctx_pc := ?_, waiting := ?_, unl := ?_, fin := ?_, mid := ?_ } <;>
+      simp_all [PC.plainOk, PC.txOk]
+    exact ⟨h.nodup, h.shape⟩
+
+theorem TI_cancelTask {t : Task} (h : t.TI) : (cancelTask t).TI := by
+  unfold cancelTask
+  split <;> first | exact BodyTI_abort h.body _ | exact h
 
 theorem TI_taskStep {t : Task} (h : t.TI) (tid now : Nat) (store : Store) (lock : Locks) :
     (taskStep tid now store lock t).task.TI := by
@@ -280,7 +344,7 @@ theorem TI_taskStep {t : Task} (h : t.TI) (tid now : Nat) (store : Store) (lock 
         · exact h.shape l hl
       · intro hm; exact absurd hm hw.1
     · refine { plain_ctx := h.plain_ctx, noctx := h.noctx, ctx_tx := h.ctx_tx, nodup := h.nodup, shape := h.shape, fast := h.fast,
-               noctx_pc := ?_, ctx_pc := ?_, waiting := ?_, unl := ?_, fin := ?_ } <;> simp_all [PC.plainOk, PC.txOk]
+               noctx_pc := ?_, ctx_pc := ?_, waiting := ?_, unl := ?_, fin := ?_, mid := ?_ } <;> simp_all [PC.plainOk, PC.txOk]
   case h_3 => exact h
   case h_4 => exact h
   case h_5 k n hpc =>
@@ -321,7 +385,7 @@ theorem TI_taskStep {t : Task} (h : t.TI) (tid now : Nat) (store : Store) (lock 
       · rfl
     split
     · refine { plain_ctx := h.plain_ctx, noctx := h.noctx, ctx_tx := h.ctx_tx, nodup := h.nodup, shape := h.shape, fast := h.fast,
-               noctx_pc := ?_, ctx_pc := ?_, waiting := ?_, unl := ?_, fin := ?_ } <;> simp_all [PC.plainOk, PC.txOk]
+               noctx_pc := ?_, ctx_pc := ?_, waiting := ?_, unl := ?_, fin := ?_, mid := ?_ } <;> simp_all [PC.plainOk, PC.txOk]
     · exact BodyTI_afterCommit h.body hc
   case h_11 hpc =>
     have hc : t.ctx = true := by
@@ -337,10 +401,10 @@ theorem TI_taskStep {t : Task} (h : t.TI) (tid now : Nat) (store : Store) (lock 
       · rfl
     split
     · refine { plain_ctx := h.plain_ctx, noctx := h.noctx, ctx_tx := h.ctx_tx, nodup := h.nodup, shape := h.shape, fast := h.fast,
-               noctx_pc := ?_, ctx_pc := ?_, waiting := ?_, unl := ?_, fin := ?_ } <;> simp_all [PC.plainOk, PC.txOk]
+               noctx_pc := ?_, ctx_pc := ?_, waiting := ?_, unl := ?_, fin := ?_, mid := ?_ } <;> simp_all [PC.plainOk, PC.txOk]
     · rename_i l rest
       refine { plain_ctx := h.plain_ctx, noctx := h.noctx, ctx_tx := h.ctx_tx, nodup := h.nodup, shape := h.shape, fast := h.fast,
-               noctx_pc := ?_, ctx_pc := ?_, waiting := ?_, unl := ?_, fin := ?_ }
+               noctx_pc := ?_, ctx_pc := ?_, waiting := ?_, unl := ?_, fin := ?_, mid := ?_ }
       · simp [hc]
       · intro _; split <;> simp [PC.txOk]
       · intro k a hk; split at hk <;> simp at hk
@@ -352,7 +416,46 @@ theorem TI_taskStep {t : Task} (h : t.TI) (tid now : Nat) (store : Store) (lock 
           have hn := List.nodup_cons.mp hu.2.1
           exact ⟨hu.1, hn.2, fun l' hl' => hu.2.2.1 l' (List.mem_cons_of_mem _ hl'), hu.2.2.2⟩
       · intro o' _; exact hu.1
+      · intro ls' hk; split at hk <;> simp at hk
   case h_13 => exact h
+  case h_14 hpc =>   -- midDel
+    have hc : t.ctx = true := by
+      cases hc : t.ctx
+      · have := h.noctx_pc hc; simp [hpc, PC.plainOk] at this
+      · rfl
+    split
+    · refine { plain_ctx := h.plain_ctx, noctx := h.noctx, ctx_tx := h.ctx_tx, nodup := h.nodup, shape := h.shape, fast := h.fast,
+               noctx_pc := ?_, ctx_pc := ?_, waiting := ?_, unl := ?_, fin := ?_, mid := ?_ } <;> simp_all [PC.plainOk, PC.txOk]
+    · exact BodyTI_afterMid h.body hc now
+  case h_15 hpc =>   -- midSet
+    have hc : t.ctx = true := by
+      cases hc : t.ctx
+      · have := h.noctx_pc hc; simp [hpc, PC.plainOk] at this
+      · rfl
+    exact BodyTI_afterMid h.body hc now
+  case h_16 ls hpc =>   -- midUnlock
+    have hu := h.mid ls hpc
+    have hc : t.ctx = true := by
+      cases hc : t.ctx
+      · have := h.noctx_pc hc; simp [hpc, PC.plainOk] at this
+      · rfl
+    split
+    · exact BodyTI_settle now _ h.body
+    · rename_i l rest
+      split
+      · exact BodyTI_settle now _ h.body
+      · refine { plain_ctx := h.plain_ctx, noctx := h.noctx, ctx_tx := h.ctx_tx, nodup := h.nodup, shape := h.shape, fast := h.fast,
+                 noctx_pc := ?_, ctx_pc := ?_, waiting := ?_, unl := ?_, fin := ?_, mid := ?_ }
+        · simp [hc]
+        · intro _; simp [PC.txOk]
+        · intro k a hk; simp at hk
+        · intro ls' o' hk; simp at hk
+        · intro o' hk; simp at hk
+        · intro ls' hk
+          simp at hk
+          subst hk
+          have hn := List.nodup_cons.mp hu.2.2.2.1
+          exact ⟨hu.1, hu.2.1, hu.2.2.1, hn.2, fun l' hl' => hu.2.2.2.2.1 l' (List.mem_cons_of_mem _ hl'), hu.2.2.2.2.2⟩
 
 theorem TI_wake {t : Task} (h : t.TI) (now : Nat) : (wake now t).TI := by
   unfold wake
@@ -371,7 +474,7 @@ theorem TI_wake {t : Task} (h : t.TI) (now : Nat) : (wake now t).TI := by
           · have := h.noctx_pc hc; simp [hpc, PC.plainOk] at this
           · rfl
         refine { plain_ctx := h.plain_ctx, noctx := h.noctx, ctx_tx := h.ctx_tx, nodup := h.nodup, shape := h.shape, fast := h.fast,
-                 noctx_pc := ?_, ctx_pc := ?_, waiting := ?_, unl := ?_, fin := ?_ } <;> simp_all [PC.plainOk, PC.txOk]
+                 noctx_pc := ?_, ctx_pc := ?_, waiting := ?_, unl := ?_, fin := ?_, mid := ?_ } <;> simp_all [PC.plainOk, PC.txOk]
     · exact h
   · exact h
 
@@ -384,15 +487,18 @@ structure Task.Fresh (t : Task) : Prop where
   locks : t.locks = []
   results : t.results = []
   reads : t.reads = []
+  cmuts : t.cmuts = []
+  pend : t.pend = []
+  cinc : t.cinc = []
 
 theorem Task.Fresh.TI {t : Task} (h : t.Fresh) : t.TI := by
   refine { plain_ctx := fun _ => h.ctx, noctx := fun _ => ⟨h.locks, h.ov, h.del⟩, ctx_tx := ?_, nodup := ?_, shape := ?_, fast := fun _ => h.locks,
-           noctx_pc := ?_, ctx_pc := ?_, waiting := ?_, unl := ?_, fin := fun _ _ => h.locks } <;>
+           noctx_pc := ?_, ctx_pc := ?_, waiting := ?_, unl := ?_, fin := fun _ _ => h.locks, mid := ?_ } <;>
     simp [h.pc, h.ctx, h.locks, PC.plainOk]
 
 theorem inert_TI : Task.inert.TI := by
   refine { plain_ctx := fun _ => rfl, noctx := fun _ => ⟨rfl, rfl, rfl⟩, ctx_tx := ?_, nodup := ?_, shape := ?_, fast := fun _ => rfl,
-           noctx_pc := ?_, ctx_pc := ?_, waiting := ?_, unl := ?_, fin := fun _ _ => rfl } <;>
+           noctx_pc := ?_, ctx_pc := ?_, waiting := ?_, unl := ?_, fin := fun _ _ => rfl, mid := ?_ } <;>
     simp [Task.inert, PC.plainOk]
 
 def World.AllTI (w : World) : Prop := ∀ i, (w.tasks i).TI
@@ -405,6 +511,11 @@ theorem AllTI_step (w : World) (a : Act) (h : w.AllTI) : (w.step a).AllTI := by
     · subst hi; simp only [World.step, runTask_tasks_self]; exact TI_taskStep (h i) _ _ _ _
     · simp only [World.step, runTask_tasks_ne w tid hi]; exact h i
   | adv d => exact TI_wake (h i) _
+  | cancel tid =>
+    show (if i = tid then cancelTask (w.tasks i) else w.tasks i).TI
+    split
+    · exact TI_cancelTask (h i)
+    · exact h i
 
 theorem AllTI_init (store : Store) (ts : List Task) (h : ∀ t ∈ ts, t.Fresh) : (World.init store ts).AllTI := by
   intro i
